@@ -315,16 +315,25 @@ func histHooks(rig *wire.Rig) {
 			}
 			return "?"
 		}
+		// the reply code of a rejected message varies with its id (permanent / transient), so
+		// that a default enhanced code of the wrong class shows
+		rejectMsg := func() error {
+			m := id()
+			if len(m) > 0 && (m[len(m)-1]-'0')%2 == 1 {
+				return tok(451, smtp.EnhancedCode{4, 6, 0}, "v#m"+m)
+			}
+			return tok(554, smtp.EnhancedCode{5, 6, 0}, "v#m"+m)
+		}
 		if string(r.Got) == "FAILEARLY" {
 			r.ReadN(16, 7)
-			return tok(554, smtp.EnhancedCode{5, 6, 0}, "v#m"+id())
+			return rejectMsg()
 		}
 		err := r.ReadAll(256)
 		if err != nil && err.Error() != "EOF" {
 			return err
 		}
 		if bytes.Contains(r.Got, []byte("REJECT")) {
-			return tok(554, smtp.EnhancedCode{5, 6, 0}, "v#m"+id())
+			return rejectMsg()
 		}
 		return nil
 	}
